@@ -287,7 +287,20 @@ Definition any_missing (ss : srcs) (m : pkgmap) : bool :=
 Inductive exitc := ExOk | ExErr | ExPanic.
 Record outcome := { o_exit : exitc; o_mocks : list mock }.
 
+(* Config.validateRegexes (fix c09-validate-regexes): Initialize compiles include-interface-regex,
+   exclude-interface-regex (and every exclude-subpkg-regex entry: always an expression here) of the
+   top-level config and of every package config after the top-level settings were merged in; an
+   expression that does not compile is an initialisation error whether or not it would ever be
+   consulted.  (Interface-level configs inherit these settings from their package and are
+   validated again, with the same answer.)  Before that fix an invalid expression only mattered
+   when ShouldGenerateInterface reached it. *)
+Definition bad_src (x : option re_src) : bool := match x with Some ReBad => true | _ => false end.
+Definition regexes_ok (c : cfg) : bool := negb (bad_src (c_inc c)) && negb (bad_src (c_exc c)).
+Definition config_valid (root : cfg) (m : pkgmap) : bool :=
+  regexes_ok root && forallb (fun e => regexes_ok (p_cfg (snd e))) (init_pkgs root m).
+
 Definition run (t : tree) (ss : srcs) (root : cfg) (o1 o2 : list str) (m : pkgmap) : outcome :=
+  if negb (config_valid root m) then {| o_exit := ExErr; o_mocks := [] |} else
   let final := initialize_twice t root o1 o2 m in
   match mocks_of_map ss final with
   | Ok l => {| o_exit := if any_missing ss final then ExErr else ExOk; o_mocks := l |}
